@@ -9,7 +9,7 @@ SC=$(mktemp -d /dev/shm/seedrepo-XXXXXX)
 trap 'rm -rf "$SC"' EXIT
 rsync -a --exclude .git /repo/ "$SC"/
 (cd "$SC" && git init -q . 2>/dev/null; patch -p1 -s < "$P") || { echo "patch does not apply"; exit 2; }
-OUT=$(cd /verif && VERIF_REPO="$SC" VERIF_EVIDENCE_DIR="$SC/.evidence" ./check "$ID" "$TIER" 2>&1); RC=$?
+OUT=$(cd "${SEEDCHECK_VERIF:-/verif}" && VERIF_REPO="$SC" VERIF_EVIDENCE_DIR="$SC/.evidence" ./check "$ID" "$TIER" 2>&1); RC=$?
 echo "$OUT" | grep -E "^\s+\[|^VIOLATION|INTERNAL" | head -12
 echo "seedcheck $ID $(basename "$(dirname "$P")") rc=$RC"
 exit $RC
